@@ -78,7 +78,7 @@ def main():
     out = "/verif/seeded/" + sid
     os.makedirs(out, exist_ok=True)
     for f in ("patch.diff", "demo_test.go", "README.md"):
-        if os.path.exists(os.path.join(src, f)):
+        if os.path.exists(os.path.join(src, f)) and os.path.abspath(os.path.join(src, f)) != os.path.abspath(os.path.join(out, f)):
             shutil.copy(os.path.join(src, f), os.path.join(out, f))
     old = {}
     if os.path.exists(os.path.join(out, "meta.json")):
